@@ -12,6 +12,7 @@ import ChibiVerif.Lemmas.PPLemmas
 import ChibiVerif.Lemmas.PPTerm
 import ChibiVerif.Lemmas.PPSubst
 import ChibiVerif.Lemmas.C09Fuel
+import ChibiVerif.Lemmas.C09Stringize
 
 namespace ChibiVerif.Props.C09
 open ChibiVerif.PP
@@ -254,6 +255,25 @@ example :
       = .ok [(.ident, "a"), (.num, "13"), (.num, "4"), (.str, "\"1\"")] ∧
     (modelSubst Lex.lexOne id body args).map spell
       = .ok [(.ident, "a"), (.num, "13"), (.num, "4"), (.str, "\"1\"")] := by decide
+
+/-- **C09 (`#`), exact.**  For every argument, `stringize` (= `quote_string(join_tokens(arg))`) spells the string
+    literal of C11 6.10.3.2p2 **if and only if** no token of the argument has a `\` or `"` outside a string literal or
+    character constant (`strSafeTok`): the region `StringizeLiteralSafe` of known finding
+    C09-stringize-backslash-outside-literal cannot be narrowed at the `#` operator — every stringization inside it is
+    wrong (strictly longer than the standard's text), every one outside it is right. -/
+theorem C09_stringize_exact (hash : Tok) (arg : List Tok) :
+    (stringize hash arg).text = (ChibiVerif.Spec.PPSpec.stringizeSpec hash arg).text ↔ ∀ t ∈ arg, strSafeTok t = true := by
+  constructor
+  · intro h t ht
+    cases hs : strSafeTok t with
+    | true => rfl
+    | false => exact absurd h (stringize_ne_spec hash arg ⟨t, ht, hs⟩)
+  · intro h
+    exact (stringize_eq_spec hash arg h).1
+
+/-- both sides occur: `"a\n" + c` is safe (the backslash is inside a literal), `: @ \ n` is not -/
+example : (∀ t ∈ [tk "\"a\\n\"" .str, tk "+" .punct, tk "c"], strSafeTok t = true) ∧
+    ¬ (∀ t ∈ [tk ":" .punct, tk "@" .punct, tk "\\" .punct, tk "n"], strSafeTok t = true) := by decide
 
 /-! ## `__COUNTER__` -/
 
